@@ -270,17 +270,24 @@ def replay_ce(ce):
         want_log = ['same'] * k
         failed = False
     elif ck == 'TupleArgs':
-        # each child is `(c_i(i), c_i(i), c_i(i))`: three calls per child, stopping at the first failing call
+        # each child is the argument list `(c_i a(i), c_i b(i), c_i c(i))`: a boolean, then two integers -- the shape of `if(cond, x, y)`; the reference
+        # evaluates all three calls of every child in order, stopping at the first failing call (a failing child fails in its first call)
         wl = []
         failed = False
         for i in range(k):
             if failed:
                 break
-            if funcs['c%d' % i] == 'fail':
-                wl.append('c%d' % i)
+            if funcs.pop('c%d' % i) == 'fail':
+                funcs['c%da' % i] = 'fail'
+                wl.append('c%da' % i)
                 failed = True
             else:
-                wl += ['c%d' % i] * 3
+                funcs['c%da' % i] = 'const:B:1'
+                funcs['c%db' % i] = 'const:I:1'
+                funcs['c%dc' % i] = 'const:I:2'
+                wl += ['c%da' % i, 'c%db' % i, 'c%dc' % i]
+        for i in range(k):
+            funcs.pop('c%d' % i, None)
         want_log = wl
     funcs['x'] = 'log'
     entry = 'optree_mut' if ce['mutable'] else 'optree_ro'
@@ -292,7 +299,9 @@ def replay_ce(ce):
         got_log = [n for n, a in out.get('log', []) if n != 'x']
         res_ = out.get('result')
         okk = got_log == want_log
-        if failed:
+        if failed and ck == 'TupleArgs':
+            okk = okk and bool(res_ and res_[0] == 'Err' and res_[1] == 'CustomMessage')
+        elif failed:
             okk = okk and bool(res_ and res_[0] == 'Err' and res_[1] == 'CustomMessage' and res_[3] == 'Error: fail:%s' % want_log[-1])
         else:
             arity = {'Neg': 1, 'Not': 1, 'Const': 0, 'VariableIdentifierWrite': 0, 'VariableIdentifierRead': 0, 'FunctionIdentifier': 1}.get(op.split(':')[0], 2)
